@@ -124,7 +124,9 @@ for key0, (what, needs), rnd, pref in ALL:
         except Exception:
             pass
     det = {}
-    for lg in glob.glob("/var/tmp/mutlog/%s*.log" % (key if rnd == "M2" else key0)):
+    names = [key] if rnd == "M2" else [key0, "M-" + key0]
+    logs = sorted(set(l for nm in names for l in [("/var/tmp/mutlog/%s.log" % nm)] + glob.glob("/var/tmp/mutlog/%s-vs*.log" % nm) + glob.glob("/var/tmp/mutlog/%s-r[0-9]*.log" % nm) if os.path.exists(l)))
+    for lg in logs:
         t = open(lg, errors="replace").read()
         for m in re.finditer(r"=== (C\d+) under", t):
             chk = m.group(1)
